@@ -70,6 +70,19 @@ def _differs(a, b):
 def locate(s, e):
     """Smallest source sub-expression whose embedded re-print has a different value: 'SrcDesc->EmbDesc' or 'Desc:field'."""
     if type(s) is not type(e):
+        # the compiler folds constant conditions / operands before printing: follow the branch that is left
+        try:
+            if isinstance(s, ast.IfExp):
+                return locate(s.body if eval(compile(ast.fix_missing_locations(ast.Expression(body=s.test)), "<t>", "eval"),
+                                             dict(sigs.prelude_ns())) else s.orelse, e)
+            if isinstance(s, ast.BoolOp):
+                for v in s.values[:-1]:
+                    truth = bool(eval(compile(ast.fix_missing_locations(ast.Expression(body=v)), "<t>", "eval"), dict(sigs.prelude_ns())))
+                    if truth == isinstance(s.op, ast.Or):
+                        return locate(v, e)
+                return locate(s.values[-1], e)
+        except Exception:
+            pass
         return "%s->%s" % (_desc(s), _desc(e))
     if isinstance(s, ast.BinOp):
         shape = lambda n: (isinstance(n.left, ast.BinOp), isinstance(n.right, ast.BinOp))
